@@ -128,6 +128,11 @@ def _exact_cases(tier):
                         yield ['exact', name, L, qD, integ, [dt.real, dt.imag], steps, 'complex']
                     for dt, steps in ([(DTS[0], 1), (DTS[2], 2)] if tier == 'quick' else combos):
                         yield ['exact', name, L, qD, integ, [dt.real, dt.imag], steps, 'real']
+                    # over-complete bonds (every multiplicity one above the sector-complete one): the manifold is still the whole sector;
+                    # the sweep then meets non-square bond matrices
+                    qDo = palette.sector_profile(L, qd, 0, tot, 'over')
+                    for dt, steps in ([(DTS[0], 1), (DTS[2], 2)] if tier == 'quick' else combos):
+                        yield ['exact', name, L, qDo, integ, [dt.real, dt.imag], steps, 'complex', 'over']
 
 
 def run_exact_case(case, ctx):
@@ -139,7 +144,11 @@ def run_exact_case(case, ctx):
     # The statement claims exactness whenever the bond dimensions admit every vector of the sector, which every sector-complete
     # ('maximal') layout does.  Exactness is a theorem only when some bond split is left/right complete (DESIGN.md 4/C09); the
     # remaining layouts are judged all the same, and their failures carry the class [no_complete_split] (KNOWN_FINDINGS.txt).
-    pred = palette.exactness_predicate(qd, qD, twosite=(integ == 'two'))
+    prof = case[8] if len(case) > 8 else 'maximal'
+    # (for an over-complete layout the predicate is that of the sector-complete layout of the same sector: same manifold)
+    qDm = qD if prof == 'maximal' else palette.sector_profile(L, qd, 0, int(qD[-1][0]), 'maximal')
+    pred = palette.exactness_predicate(qd, qDm, twosite=(integ == 'two'))
+    ctx.cls('profile:' + prof)
     ctx.cls('layout_with_complete_split' if pred else 'layout_without_complete_split')
     psi = ec.make_state(ctx.rng(0), qd, qD, skind)
     ctx.cls('state_dtype:' + skind)
